@@ -18,6 +18,11 @@ structure ZFld (K : Type) where
   fld : Fld K
   zd : Bool
 
+/-- `Field.__mul__`, 0-d aware: the data of the product is 0-d exactly when both operands are 0-d (NumPy: `() * ()` is
+`()`, `() * (1, 1)` is `(1, 1)`, and a one-element operand is broadcast to the other's shape) -/
+def ZFld.mul [Mul K] (a b : ZFld K) : Option (ZFld K) :=
+  (a.fld.mul b.fld).map fun p => { fld := p, zd := a.zd && b.zd }
+
 /-- `lentil.field._merge`, 0-d aware: `none` = NumPy raises `ValueError` -/
 def mergeZ [Add K] [Zero K] (fs : List (ZFld K)) : Option (ZFld K) :=
   let b := boundaryL (fs.map fun z => z.fld.extent)
